@@ -16,21 +16,24 @@ THEOREM_MODULES = ["GuppyVerif.Props.C11"]
 DRIVER = "C11"
 RULE = (
     "one long session on the REAL engine (in-process): random check / lower (=ENGINE.check + CompilerContext.compile) / "
-    "re-lower-from-cache operations over a pool of 34 definitions (ill-typed ones, callers of ill-typed ones, recursive nested "
+    "re-lower-from-cache operations over a pool of 36 definitions (ill-typed ones, callers of ill-typed ones, one whose signature "
+    "does not parse and a caller of it, recursive nested "
     "functions with and without captures, generics, structs, comptime functions incl. one raising mid-trace and one mistyped, "
     "comptime expressions, comprehensions, static arrays); every lower/re-lower outcome (canonicalised Hugr digest: ops, types, "
     "wiring, node ids renumbered in traversal order; or exception class + rendered diagnostic) is compared with the outcome of "
     "lowering that definition ALONE in a fresh interpreter; the same operation sequence is run through the Lean session model "
     "(abstract pool extracted from the real objects) and per-operation outcome class, %tmp counter, DEF_STORE growth, tracing "
-    "flag, frame rebinding and the engine's checked cache (return-vars-inserted flag, input_tys growth) are compared. thorough: "
+    "flag, frame rebinding, len(ENGINE.parsing) and the engine's checked cache (return-vars-inserted flag, input_tys growth) are "
+    "compared. thorough: "
     "additionally every ordered pair (a, b) of pool definitions as consecutive lowerings. A case = one observed operation; "
     "non-trivial = it is preceded by at least one other operation and has a fresh-process baseline; distinct by the operation "
     "together with its three predecessors"
 )
 ASSUMPTIONS = [
     "Model/Session.lean is hand-written; its agreement with the engine is established by the per-operation state correspondence run here (sampling)",
-    "the abstract pool (deps, tmps, sorted rows, nested definitions, comptime flags) is extracted from the real objects by c11_pool.calibrate (T-obj); deps come from the pool source via ast",
-    "harness-side instrumentation: cfg.builder.tmp_vars (a generator) is replaced in-process by an equivalent counter whose position can be read",
+    "the abstract pool (deps, tmps, sorted rows, nested definitions reached before a failure, comptime / bad-signature flags) is extracted from the real objects by c11_pool.calibrate (T-obj); deps come from the pool source via ast",
+    "signatures of pool definitions do not mention other definitions, so parses do not nest (the model's `parsing` holds at most the definition being parsed)",
+    "harness-side instrumentation: cfg.builder.tmp_vars is replaced in-process by an equivalent counter object (same names, same reset()) whose position can be read",
     "a fresh interpreter lowering the target alone (subprocess, same bootstrap) is the reference for 'no history'",
     "sorted() with compare_var on distinct names = insertion sort by name order (CPython sort correctness)",
 ]
@@ -47,15 +50,17 @@ TRUSTED_EXTRA = [
 MANIFEST = {
     "level_text": "Lean theorems over the session model, for ALL pools of definitions and ALL histories of check / compile / "
     "re-lower operations (induction over operation lists, simulation between runs that differ in counters and cached objects): "
-    "compile_history_free_partial and failed_op_no_effect_partial — if check() resets the caches, nothing is written into the "
-    "defining frame and the tracing state is restored on error (the three facts are re-read from /repo's source on every run, "
-    "real_config_sound), then check/compile outcomes and the abstract compile output after any history equal those of a fresh "
-    "session, provided the order used on generated %tmp names is invariant under renumbering; op_keeps_session_clean; "
-    "relower_entry_stable_partial (the insert_return_vars guard and the unread input_tys make the in-place mutations of a cached "
-    "CFG unobservable when it is lowered again). The hypothesis on the name order is NOT true of the code (string order, "
-    "'%tmp10' < '%tmp9'): compile_history_free_false_for_name_order is a kernel-checked counter-history, reproduced on the real "
-    "engine (block ports permuted; known finding). Witness theorems show each mechanism is needed; two of them were real defects "
-    "found by this proof attempt and fixed in /repo (frame leak of recursive nested functions; tracing state not restored). "
+    "compile_history_free and failed_op_no_effect — for the configuration read off /repo's source on every run (real_config_sound, "
+    "real_config_restarts_tmp: check() resets the caches incl. `parsing`, nothing is written into the defining frame, the tracing "
+    "state and `parsing` are restored on every exit, check() restarts the %tmp numbering) and the order compare_var really uses on "
+    "generated names (string order), check/compile outcomes and the abstract compile output after any history equal those of a "
+    "fresh session; compile_history_free_of_sound is the general form (restart of the numbering OR an order invariant under "
+    "renumbering); op_keeps_session_clean (no operation, failing half-way — in a parse too — included, binds a frame name, leaves "
+    "tracing on or leaves a definition recorded as being parsed); relower_entry_stable_partial (the insert_return_vars guard and the "
+    "unread input_tys make the in-place mutations of a cached CFG unobservable when it is lowered again). Witness theorems show each "
+    "mechanism is needed; three of them were real defects found by this proof attempt and fixed in /repo (frame leak of recursive "
+    "nested functions; tracing state not restored; block-port order depending on the session's %tmp counter: "
+    "compile_history_free_false_for_name_order is the kernel-checked counter-history for the pre-fix configuration). "
     "What only the search covers: that the real engine behaves like the model — checked on every run by running the same random "
     "operation sequence on the real engine and the model and comparing per-operation state projections, and by comparing every "
     "real lowering after a history with a fresh-process lowering (canonical Hugr).",
@@ -127,7 +132,8 @@ def _cls_model(s):
     if s == "absent":
         return "absent"
     e = s.split(":", 1)[1]
-    return {"typeError": "user", "undefinedName": "user", "userRaise": "user"}.get(e, e)
+    return {"typeError": "user", "undefinedName": "user", "userRaise": "user", "sigError": "user",
+            "cyclic": "user"}.get(e, e)
 
 
 def _pool_sexp(cal):
@@ -135,13 +141,14 @@ def _pool_sexp(cal):
         rows = " ".join("(" + " ".join(map(str, r)) + ")" for r in o["rows"])
         nested = " ".join("(" + " ".join(map(str, n)) + ")" for n in o["nested"])
         return (f"(({' '.join(map(str, o['deps']))}) {o['ill']} {o['ct_call']} {o['nret']} {o['tmps']} {o['ctmps']} "
-                f"({rows}) ({nested}) {o['comptime']} {o['raises']})")
+                f"({rows}) ({nested}) {o['comptime']} {o['raises']} {o.get('bad_sig', 0)})")
     return "(" + " ".join(d(o) for o in cal) + ")"
 
 
 def _cfg_bits(f):
-    return "({} {} {} {} {})".format(int(f["check_resets"]), int(f["return_vars_guard"]), int(bool(f["input_tys_reads"])),
-                                     int(f["tracing_restored"]), int(bool(f["frame_writes"])))
+    return "({} {} {} {} {} {} {} {})".format(
+        int(f["check_resets"]), int(f["return_vars_guard"]), int(bool(f["input_tys_reads"])), int(f["tracing_restored"]),
+        int(bool(f["frame_writes"])), int(f["reset_clears_parsing"]), int(f["parse_restores"]), int(f["check_restarts_tmp"]))
 
 
 def _euler_pairs(names, rng):
@@ -253,7 +260,7 @@ def tie(ctx, more: int = 1):
     if ctx.replay_in:
         targets = []
     elif ctx.quick and more == 1:
-        always = ["two_tmp", "uses_f", "cexpr", "user_bad", "rec_cap", "use_struct"]
+        always = ["two_tmp", "uses_f", "cexpr", "user_bad", "rec_cap", "use_struct", "uses_bad_sig"]
         rest = [t for t in P.TARGETS if t not in always]
         targets = always + rng.sample(rest, 6)
     else:
@@ -319,6 +326,7 @@ def tie(ctx, more: int = 1):
         m_out = mparts[0]
         m_tmp, m_store, m_tr, m_leaks = int(mparts[1]), int(mparts[3]), int(mparts[4]), int(mparts[5])
         m_chk = " ".join("/".join(c.split("/")[:3]) for c in mparts[6].split()) if len(mparts) > 6 else ""
+        m_parsing = int(mparts[7]) if len(mparts) > 7 else 0
         diffs = []
         if _cls_real(real) != _cls_model(m_out):
             diffs.append(f"outcome real={_cls_real(real)} model={_cls_model(m_out)}")
@@ -331,6 +339,8 @@ def tie(ctx, more: int = 1):
             diffs.append(f"tracing real={pr['tracing']} model={m_tr}")
         if bool(pr["rebound"]) != (m_leaks > 0):
             diffs.append(f"frame rebinding real={pr['rebound']} model={m_leaks}")
+        if pr.get("parsing", 0) != m_parsing:
+            diffs.append(f"len(ENGINE.parsing) real={pr.get('parsing')} model={m_parsing}")
         if pr["checked"] != m_chk:
             diffs.append(f"checked cache real=[{pr['checked']}] model=[{m_chk}]")
         if diffs and mism < 3:
@@ -381,17 +391,11 @@ def _oracle(ctx, ops, reals, base, tag, prefix=()):
 
 
 def search(ctx, why):
-    """something no longer checks (typically: Gen config no longer sound): look harder for a real history"""
+    """something no longer checks (typically: Gen config no longer sound): look harder for a real history.
+    (vlib.main reports the broken proof / correspondence itself when no failing input turns up.)"""
     ctx.extra["search"] = "thorough-size history run (all ordered pairs + more random operations)"
     if not any(v["found"] for v in ctx.violations):
         tie(ctx, more=2)
-    if ctx.broken and not ctx.violations:
-        # vlib only reports a broken proof/correspondence when no known finding was hit in the same run; a
-        # known finding must not mask an unexplained break
-        ctx.violation("broken:" + "|".join(ctx.broken),
-                      "proof obligation or correspondence no longer checks: " + "; ".join(ctx.broken),
-                      {"broken": ctx.broken, "build_log_tail": ctx.build_log[-3000:] if not ctx.build_ok else ""},
-                      found_input=False)
 
 
 if __name__ == "__main__":
